@@ -7,5 +7,5 @@ mkdir -p build evidence replays
 ./stubs/libflux/mkstub.sh "$PWD/build/libflux" >/dev/null
 ( cd engine && GOTOOLCHAIN=local go1.26.8 build -o ../build/gosym ./cmd/gosym )
 # warm the build cache for the packages the checks load and replay against
-( cd /repo && PKG_CONFIG_PATH="$PWD/../verif/build/libflux" PKG_CONFIG_PATH=/verif/build/libflux go build . ./alert ./edge ./models ./pipeline ./services/alert ./services/storage ./services/task_store ./udf ./udf/agent ./tick/... ./auth ./services/httpd >/dev/null 2>&1 || true )
+( cd /repo && CGO_LDFLAGS="-O2 -g -L/verif/build/libflux" PKG_CONFIG_PATH=/verif/build/libflux go build . ./alert ./edge ./models ./pipeline ./services/alert ./services/storage ./services/task_store ./udf ./udf/agent ./tick/... ./auth ./services/httpd >/dev/null 2>&1 || true )
 echo "setup ok"
